@@ -126,7 +126,23 @@ class CellGen:
                 return {'k': 'other', 'kind': 'empty', 'text': '.'}
             if x < 0.30:
                 return self.chord()
-            return self.elem()
+            # sometimes the same note as an earlier one of this generator, written with its signifiers in another order (same normal form,
+            # different cell text): repeated material is what the unique / frequency queries are about
+            pool = getattr(self, '_seen_notes', None)
+            if pool is None:
+                pool = self._seen_notes = []
+            if pool and x < 0.42:
+                import copy
+                e = copy.deepcopy(r.choice(pool))
+                if r.random() < 0.7:
+                    r.shuffle(e['post2'])
+                    if len(e['post2']) < 2 and e['pre'] and not e['acc']:
+                        e['post2'], e['pre'] = e['post2'] + e['pre'], []
+                return e
+            e = self.elem()
+            if e['k'] == 'note' and len(pool) < 6:
+                pool.append(e)
+            return e
         if header == '**root':
             return {'k': 'other', 'kind': 'empty', 'text': '.'} if r.random() < 0.3 else self.elem()
         kind, pool = TEXT_KIND.get(header, ('otherText', LYRICS))
@@ -139,7 +155,10 @@ class CellGen:
         r = self.rng
         if header not in ('**kern', '**root') and r.random() < 0.7:
             return {'k': 'other', 'kind': 'empty', 'text': '*'}
-        what = what or r.choice(['clef', 'keysig', 'key', 'meter', 'timesig', 'staff', 'instr', 'tandem', 'null', 'null'])
+        what = what or r.choice(['clef', 'keysig', 'key', 'meter', 'timesig', 'staff', 'instr', 'tandem', 'null', 'null', 'bbox'])
+        if what == 'bbox':
+            # a bounding box (IMAGE_ANNOTATIONS: shared structure in every spine type; its token class derives from Token directly)
+            return {'k': 'other', 'kind': 'bbox', 'text': r.choice(['*xywh-1:10,20,30,40', '*xywh-p2:0,0,5,5', '*xywh-3:1,2,300,40'])}
         table = {'clef': ('clef', CLEFS), 'keysig': ('keySig', KEYSIGS), 'key': ('contextual', KEYS), 'meter': ('meter', METERS),
                  'timesig': ('timeSig', TIMESIGS), 'staff': ('staff', STAFFS), 'instr': ('nonvisual', INSTRS), 'null': ('empty', ['*'])}
         if what == 'tandem':
@@ -242,6 +261,9 @@ class DocGen:
             p = {'staff': 0.3, 'instr': 0.3, 'clef': 0.95, 'keysig': 0.7, 'timesig': 0.7, 'meter': 0.2}[what]
             if r.random() < p:
                 cells_row('interp', lambda h, s, w=what: self.cg.interp_cell(h, w) if h in ('**kern', '**root') else dict(NULL_I))
+        if self.profile == 'free' and r.random() < 0.25:
+            # a bounding-box line (image annotations are shared structure in every spine type)
+            cells_row('interp', lambda h, s: self.cg.interp_cell(h, 'bbox') if r.random() < 0.8 else dict(NULL_I))
         if self.comments and r.random() < 0.2:
             global_row()
         nm = r.randint(1, self.max_measures)
@@ -426,6 +448,74 @@ def nested_split_doc(rng):
         row('bar', lambda j, s, b=cg.bar(None): dict(b))
     rows.append({'kind': 'cells', 'rk': 'term', 'cells': [op_cell('*-') for _ in live], 'live': list(live)})
     return {'headers': hs, 'rows': rows, 'profile': 'nested-split', 'nest': nest}
+
+
+def shift_doc(rng):
+    """two or three spines of different types; records whose spine operators keep the NUMBER of columns the same while changing which spine
+    each column belongs to: one spine joins while its neighbour splits (`*v *v *^`), one splits while the neighbour joins (`*^ *v *v`), one
+    ends while another splits (`*- *^`), in both orders; data lines in between"""
+    cg = CellGen(rng, sig_weight=0.2)
+    types = rng.choice([['**kern', '**kern'], ['**kern', '**text'], ['**kern', '**dynam', '**kern'], ['**kern', '**kern', '**text']])
+    hs = list(types)
+    rows = []
+    live = list(range(len(hs)))
+
+    def cellrow(rk, fn):
+        rows.append({'kind': 'cells', 'rk': rk, 'cells': [fn(hs[s], s) for s in live], 'live': list(live)})
+
+    def data(n=1):
+        for _ in range(n):
+            cellrow('data', lambda h, s: cg.data_cell(h))
+
+    def oprow(ops):
+        """ops: one operator text per live column; updates live by the spine-path rules"""
+        rows.append({'kind': 'cells', 'rk': 'ops', 'cells': [op_cell(o) if o != '*' else dict(NULL_I) for o in ops], 'live': list(live)})
+        nxt = []
+        j = 0
+        while j < len(ops):
+            o = ops[j]
+            if o == '*^':
+                nxt += [live[j], live[j]]
+            elif o == '*v':
+                k = j
+                while k + 1 < len(ops) and ops[k + 1] == '*v' and live[k + 1] == live[j]:
+                    k += 1
+                nxt.append(live[j]); j = k
+            elif o == '*-':
+                pass
+            else:
+                nxt.append(live[j])
+            j += 1
+        live[:] = nxt
+    rows.append({'kind': 'cells', 'rk': 'header', 'cells': [{'k': 'header', 'text': h} for h in hs], 'live': list(live)})
+    cellrow('interp', lambda h, s: {'k': 'other', 'kind': 'clef', 'text': rng.choice(CLEFS)} if h == '**kern' else dict(NULL_I))
+    cellrow('bar', lambda h, s, b=cg.bar(1): dict(b))
+    data()
+    a, b = 0, 1
+    if rng.random() < 0.5:
+        a, b = 1, 0          # which of the first two spines plays which part
+    # spine a splits alone
+    oprow(['*^' if s == a else '*' for s in live]); data(rng.randint(1, 2))
+    # a joins while b splits: the column count stays, the ownership shifts
+    ops = []
+    for j, s in enumerate(live):
+        ops.append('*v' if s == a else '*^' if s == b else '*')
+    oprow(ops); data(rng.randint(1, 2))
+    cellrow('bar', lambda h, s, bb=cg.bar(2): dict(bb))
+    data()
+    # b joins while a splits
+    ops = []
+    for j, s in enumerate(live):
+        ops.append('*v' if s == b else '*^' if s == a else '*')
+    oprow(ops); data(rng.randint(1, 2))
+    # a joins alone
+    oprow(['*v' if s == a else '*' for s in live]); data()
+    if rng.random() < 0.6:
+        # a ends while b splits: again the same number of columns
+        oprow(['*-' if s == a else '*^' if s == b else '*' for s in live]); data(rng.randint(1, 2))
+        oprow(['*v' if s == b else '*' for s in live]); data()
+    rows.append({'kind': 'cells', 'rk': 'term', 'cells': [op_cell('*-') for _ in live], 'live': list(live)})
+    return {'headers': hs, 'rows': rows, 'profile': 'shift'}
 
 
 def all_cells(doc):
